@@ -37,7 +37,7 @@ def run(ctx):
     for (i, _t, _p, own) in EXTRA:
         cat[i]["own_label"] = own
         cat[i]["header"] = "au/units/inches.hh"
-    prep_specs(ctx, cat, pre, ["Gen_Labels.tla", "Gen_Labels.cfg", "Trace_Labels.tla", "Trace_Labels.cfg"])
+    prep_specs(ctx, cat, pre, ["Gen_Labels.tla", "Gen_Labels.cfg", "Trace_Labels.tla", "Trace_Labels.cfg", "Gen_Common.tla", "Gen_Common.cfg", "Trace_CULabels.tla", "Trace_CULabels.cfg"])
     g = ctx.tlc(ctx.path("Gen_Labels.tla"), timeout=1800, name="label expressions")
     if not g.ok or len(g.cases) != g.distinct or not g.cases:
         raise core.ToolError("Gen_Labels failed\n" + g.out[-1500:])
@@ -100,6 +100,53 @@ def run(ctx):
             r["cfg"] = cfg
             obs.append(r)
         ctx.programs += 1
+    # ---- labels of common units
+    gc = ctx.tlc(ctx.path("Gen_Common.tla"), env={"TIER": "quick"}, timeout=1800, name="common-unit lists for labels", count=False)
+    lists = [c for c in gc.cases if c["rational"] and not c["excluded"]]
+    rnd.shuffle(lists)
+    lists = lists[: (250 if ctx.tier == "quick" else 1500)]
+    for i, c in enumerate(lists):
+        c["i"] = i
+
+    def cu_src(b):
+        L = ['#include "au/au.hh"', hdrs, '#include "wire.hh"', "#include <cstring>", "using namespace au;", decls,
+             "template <typename U> void lab(int i, U u) { const auto &l = unit_label(u); std::printf(\"{\\\"k\\\":\\\"culabel\\\",\\\"i\\\":%d,\\\"label\\\":\\\"%s\\\",\\\"size\\\":%d,\\\"len\\\":%d,\\\"nul\\\":%d}\\n\", i, json_escape(l).c_str(), (int)sizeof(l), (int)std::strlen(l), (int)(l[sizeof(l) - 1] == 0)); }",
+             "int main() {"]
+        for c in b:
+            L.append("  lab(%d, CommonUnitT<%s>{});" % (c["i"], ", ".join(sp.type(e) for e in c["es"])))
+        return "\n".join(L + ["  return 0;", "}"]) + "\n"
+    curecs, cudropped, _n = core.harness_farm(ctx, {"cu": lists}, cu_src, [cfgs[0]] if not isinstance(cfgs, str) else [cfgs], [], batch=60, tag="culab", opt="-O0")
+    for d in cudropped:
+        if not core.first_error_in_au(d[2]):
+            raise core.ToolError("common-unit label harness does not compile (generator bug?): %s" % d[2][:800])
+        ctx.violation({"list": ", ".join(expr_str(e) for e in d[0]["es"]), "kind": "common-unit label rejected"}, "unit_label of CommonUnitT<%s> does not compile [%s]: %s" % (
+            ", ".join(expr_str(e) for e in d[0]["es"]), d[1], d[2][:300]), detail=d[2])
+
+    def split_elems(label):
+        if not (label.startswith("EQUIV{") and label.endswith("}")):
+            return [label]
+        inner, out, depth, cur = label[6:-1], [], 0, ""
+        k = 0
+        while k < len(inner):
+            ch = inner[k]
+            depth += ch in "[(" 
+            depth -= ch in "])"
+            if depth == 0 and inner.startswith(", ", k):
+                out.append(cur)
+                cur = ""
+                k += 2
+                continue
+            cur += ch
+            k += 1
+        return out + [cur]
+    cuobs = [dict(r, es=lists[r["i"]]["es"], elems=split_elems(r["label"])) for r in curecs if r.get("k") == "culabel"]
+    ncu, cubad = ctx.tlc_batch_validate(ctx.path("Trace_CULabels.tla"), cuobs, name="culabels", shards=min(core.NCPU, 8), timeout=3000)
+    for b in cubad:
+        r = b["rec"]
+        ctx.violation({"list": ", ".join(expr_str(e) for e in r["es"]), "kind": "common-unit label"},
+                      "unit_label(CommonUnitT<%s>) = \"%s\" (sizeof %d); each element must be one of %s, without repetition [%s]" % (
+                          ", ".join(expr_str(e) for e in r["es"]), r["label"], r["size"], sorted(b["expected"]), r["cfg"]), detail=b)
+    ctx.layers["common_unit_labels"] = {"lists": len(lists), "records_validated_by_TLC": ncu}
     nval, bad = ctx.tlc_batch_validate(ctx.path("Trace_Labels.tla"), obs, name="labels", shards=core.NCPU)
     ndrift = 0
     for b in bad:
